@@ -168,6 +168,7 @@ fn frame_variants() -> Vec<Frame> {
 }
 
 pub fn run(ctx: &Ctx) {
+    ctx.enable_trace_pass(ctx.tier.pick(5000u64, 50000u64));
     ctx.set_rule("case = (abstract FIBEX model split into files, layout); families are complete products per dimension group around baselines (the full cross product of all groups is not attempted); every case is loaded with the real gather_fibex_data from files on tmpfs and compared as maps with an independently assembled expectation; extract_metadata is checked for every numeric frame id without and with 4 extended headers; non-trivial = the expected model has at least one frame or loading must be refused");
     ctx.assume("grammar of the generated documents = that of the repository's sample files: one SHORT-NAME and BYTE-LENGTH per PDU/FRAME, instance elements holding only SEQUENCE-NUMBER and the reference, CODING-REF as empty element; no ties in sequence numbers, no duplicate signal/coding ids, no empty SHORT-NAME, no whitespace-only text");
     std::fs::create_dir_all(scratch_root()).ok();
@@ -333,6 +334,55 @@ pub fn run(ctx: &Ctx) {
             let l = Layout { indent: c[1] == 0, noise: c[2] == 1, refs_open_close: c[3] == 1, ..Layout::default() };
             judge(&[elems], &[l], &format!("section order {:?}", so), loc);
         }));
+    }
+    // G5b: DESC elements that do not belong to a PDU; many definitions with duplicated ids
+    {
+        let descs = [Desc::Absent, Desc::Empty, Desc::EmptyTag, Desc::Text("own".into())];
+        // the element placed right before the PDU: coding, signal, frame, nothing (project only)
+        let sp = Space::new(&[4, descs.len(), 2, 2]);
+        let s2 = sp.clone();
+        let descs = &descs;
+        ctx.run_family(Family::new("c11.foreign_desc", sp.size(), "documents in which PROJECT, CODING, SIGNAL and FRAME elements carry their own DESC: the element right before a PDU is a coding / signal / frame / none x the PDU's own DESC {absent, empty, empty tag, text} x a second PDU follows or not x indentation", move |i, loc| {
+            let c = s2.coords(i);
+            let cod = Elem::Coding(Coding { id: "COD_A".into(), base_type: "A_UINT16".into() });
+            let sig = Elem::Signal(Signal { id: "SIG_A".into(), coding_ref: "COD_A".into() });
+            let other = Elem::Frame(frame("ID_9", "other", &[], Some(manuf(Some("APP9"), Some("CTX9"), None, None))));
+            let p1 = Elem::Pdu(pdu("P1", descs[c[1]].clone(), &[("SIG_A", 0)]));
+            let p2 = Elem::Pdu(pdu("P2", Desc::Absent, &[("S_UINT8", 0)]));
+            let f = Elem::Frame(frame("ID_1", "f", &[("P1", 0)], None));
+            let mut elems: Vec<Elem> = match c[0] {
+                0 => vec![sig.clone(), cod.clone(), p1],
+                1 => vec![cod.clone(), sig.clone(), p1],
+                2 => vec![cod.clone(), sig.clone(), other.clone(), p1],
+                _ => vec![p1, cod.clone(), sig.clone()],
+            };
+            if c[2] == 1 {
+                elems.push(other.clone());
+                elems.push(p2);
+                elems.push(Elem::Frame(frame("ID_2", "g", &[("P2", 0)], None)));
+            }
+            elems.push(f);
+            judge(&[elems], &[Layout { foreign_desc: true, indent: c[3] == 0, ..Layout::default() }], &format!("foreign DESC elements, shape {:?}", c), loc);
+        }));
+        let counts: Vec<usize> = vec![2, 20, 21, 32, 33, 48, 100, 300];
+        let sp = Space::new(&[counts.len(), 4, 2]);
+        let s2 = sp.clone();
+        let counts = &counts;
+        ctx.run_family(Family::new("c11.many_duplicates", sp.size(), format!("N in {:?} PDUs (and N frames) each defined twice with different content: all first definitions then all second ones / interleaved / second ones in reverse order / the second ones in a second file; PDUs or frames duplicated: the first definition must win for every id", counts), move |i, loc| {
+            let c = s2.coords(i);
+            let n = counts[c[0]];
+            let dup_frames = c[2] == 1;
+            let first: Vec<Elem> = (0..n).map(|r| if dup_frames { Elem::Frame(frame(&format!("ID_{}", r), &format!("first{}", r), &[("P0", 0)], Some(manuf(Some("APP"), Some(&format!("C{}", r)), None, None)))) } else { Elem::Pdu(pdu(&format!("P{}", r), Desc::Text(format!("first {}", r)), &[("S_UINT8", 0)])) }).collect();
+            let second: Vec<Elem> = (0..n).map(|r| if dup_frames { Elem::Frame(frame(&format!("ID_{}", r), &format!("second{}", r), &[("P0", 0)], Some(manuf(Some("APP"), Some(&format!("C{}", r)), Some("T"), None)))) } else { Elem::Pdu(pdu(&format!("P{}", r), Desc::Text(format!("second {}", r)), &[("S_SINT16", 0), ("S_BOOL", 1)])) }).collect();
+            let tail: Vec<Elem> = if dup_frames { vec![Elem::Pdu(pdu("P0", Desc::Absent, &[("S_UINT8", 0)]))] } else { (0..n).map(|r| Elem::Frame(frame(&format!("ID_{}", r), "f", &[(format!("P{}", r).as_str(), 0)], None))).collect() };
+            let files: Vec<Vec<Elem>> = match c[1] {
+                0 => vec![first.iter().chain(second.iter()).chain(tail.iter()).cloned().collect()],
+                1 => vec![first.iter().zip(second.iter()).flat_map(|(a, b)| [a.clone(), b.clone()]).chain(tail.iter().cloned()).collect()],
+                2 => vec![first.iter().chain(second.iter().rev()).chain(tail.iter()).cloned().collect()],
+                _ => vec![first.iter().chain(tail.iter()).cloned().collect(), second.clone()],
+            };
+            judge(&files, &[Layout::default()], &format!("{} {} defined twice, arrangement {}", n, if dup_frames { "frames" } else { "PDUs" }, c[1]), loc);
+        }).chunk(1));
     }
     // G6: sequence numbers of different digit counts (numeric, not textual, order) and many instances
     {
